@@ -5,5 +5,5 @@ From MV Require Import XRef.XRefModel.
 Extraction Language OCaml.
 Extraction "model.ml" N.succ N.to_nat
   split_on before after normpath pjoin docname_join path_root path_parts relfn2path path2doc
-  relative_uri target_uri get_relative_uri resolve_ref scheme_of lower
+  relative_uri target_uri get_relative_uri resolve_ref relpath scheme_of lower
   render_link run_link_plain count_missing.
